@@ -495,7 +495,7 @@ class Prov:
             self._root(t[1], path, depth, out)
             return
         if k == 'cast':
-            self._root(t[1], path, depth, out)
+            self._root(t[1], (('t', 'cast:' + str(t[2])),) + path, depth, out)
             return
         if k == 'phi':
             for x in t[1]:
